@@ -340,7 +340,7 @@ class Gen:
         r = self.r
         obs = [("index_valid",), ("iter",)]
         k = r.choice(["ooo_batch", "carriers", "bad_batch", "stale_handle", "torn_update", "handle_times", "linebreaks", "zones",
-                      "remove_first", "ooo_then_remove", "nested_not", "reset_then_time", "nan_fields", "epoch", "sparse_write", "sparse_write", "future_untimed", "range_ends", "noop_compose", "substring_names", "same_size", "one_us_late", "mixed_quoting", "far_sorted", "getter_memo", "handle_sorted", "odd_strings", "shared_maps", "hash_twins", "same_count", "redate", "fold_twins", "big_ties", "handle_unset", "same_row_twice", "or_not", "noop_match", "minute_marks", "none_name", "merge_rename", "tiny_float_change", "big_ints"])
+                      "remove_first", "ooo_then_remove", "nested_not", "reset_then_time", "nan_fields", "epoch", "sparse_write", "sparse_write", "future_untimed", "range_ends", "noop_compose", "substring_names", "same_size", "one_us_late", "mixed_quoting", "far_sorted", "getter_memo", "handle_sorted", "odd_strings", "shared_maps", "hash_twins", "same_count", "redate", "fold_twins", "big_ties", "handle_unset", "same_row_twice", "or_not", "noop_match", "minute_marks", "none_name", "merge_rename", "tiny_float_change", "big_ints", "redate_remove", "underscore_keys"])
         pref = self.profile.get("scenario_pref")
         if pref and r.random() < 0.5:
             k = r.choice(pref)
@@ -872,6 +872,36 @@ class Gen:
                 ops.append(r.choice([("count", fq(c, v), None), ("search", fq(c, v), None, False), ("count", ("and", grp, fq(c, v)), None)]))
             ops += [("update", ("and", grp, fq("==", base + step)), {"tags": ("static", {"hit": "2"})}, None)] + obs + [("all", False)]
             ops += [("remove", fq("==", base + step), None)] + obs + [("count", ("noop", "tags"), None), ("get_field_values", "trace", None)]
+        elif k == "redate_remove":
+            # an update moves points OUT of the time span the inserts covered; then removals (and reads) selected by time, with bounds in the gap
+            pts = self.points_batch(r.choice([4, 5, 6]), in_order=True)
+            for i, p in enumerate(pts):
+                p["tags"]["n"] = "abcdefgh"[i]
+            lo, hi = min(p["time"] for p in pts), max(p["time"] for p in pts)
+            ops += [("insert", pts, None, "multiple")] + obs
+            later = r.random() < 0.5
+            new_t = hi + 100 * SEC if later else lo - 100 * SEC
+            ops += [("update", ("S", "tags", [("k", "n")], ("cmp", "==", ("s", r.choice("bc")))), {"time": ("static", new_t)}, None)] + obs
+            bound = hi + 50 * SEC if later else lo - 50 * SEC
+            tq = ("S", "time", [], ("cmp", ">" if later else "<", ("t", bound)))
+            ops += [r.choice([("remove", tq, None), ("remove", ("and", tq, ("S", "tags", [("k", "n")], ("exists",))), None), ("remove", ("S", "time", [], ("cmp", "==", ("t", new_t))), None)])] + obs
+            ops += [("count", tq, None), ("all", False), ("get_timestamps", None)]
+        elif k == "underscore_keys":
+            # tag / field keys with underscores in them, written with compact key prefixes; removals and updates decided by SCANNING (a negated field
+            # test is not answered by the index; so is everything when automatic indexing is off)
+            pts = self.points_batch(r.choice([4, 6]), in_order=True)
+            for i, p in enumerate(pts):
+                p["tags"]["room_id"] = "r" + str(i % 3)
+                p["tags"]["t_x_y"] = "v"
+                p["fields"]["temp_f"] = 70.0 if i % 2 else 60.5
+                p["fields"]["f_a_b"] = i
+            half = len(pts) // 2
+            ops += [("insert", pts[:half], None, "multiple", "compact"), ("insert", pts[half:], None, "multiple", "compact")] + self.file_obs() + obs
+            tq = ("S", "tags", [("k", "room_id")], ("cmp", "==", ("s", "r" + str(r.randrange(3)))))
+            nf = ("not", ("S", "fields", [("k", "temp_f")], ("cmp", "==", ("n", 70.0))))
+            ops += [("count", ("and", tq, nf), None), r.choice([("remove", ("and", tq, nf), None), ("remove", ("and", nf, tq), None), ("remove", ("S", "fields", [("k", "f_a_b")], ("cmp", "<=", ("n", 1))), None)])] + self.file_obs() + obs
+            ops += [("update", ("not", ("S", "fields", [("k", "f_a_b")], ("cmp", ">", ("n", 3)))), {"tags": ("static", {"seen_it": "1"})}, None)] + self.file_obs() + obs
+            ops += [(("reopen", r.random() < 0.5) if csv else ("reindex",)), ("all", False), ("get_tag_keys", None), ("get_field_keys", None)]
         elif k == "mixed_quoting":
             # a file written over several sessions with different (read-compatible) quoting policies - the driver reopens with QUOTE_ALL every other
             # time: then the NEWEST rows are removed through the index, the rest re-serialised
